@@ -106,6 +106,20 @@ func (c *SpecCtx) resolveLocal(name string) (Val, bool) {
 	if fr == nil || c.at == nil {
 		return Val{}, false
 	}
+	// a variable that lives in a memory cell (address-taken / captured by a closure) is always read through its
+	// cell in the current heap
+	for _, b := range fr.fn.Blocks {
+		if b != c.at && !b.Dominates(c.at) {
+			continue
+		}
+		for _, in := range b.Instrs {
+			if al, ok := in.(*ssa.Alloc); ok && al.Comment == name {
+				if v, ok := fr.env[al]; ok && v.K == kAddr && v.A.N < 0 {
+					return c.e.loadAt(c.curHeap(), v.A), true
+				}
+			}
+		}
+	}
 	// the latest definition visible at (block, atIdx): debug references inside the block before atIdx,
 	// then the block's phi named after the variable, then the nearest dominating debug reference
 	var best *dbgRef
@@ -814,12 +828,14 @@ func (e *Enc) funDef(fd *FunDef) *funInfo {
 	for _, p := range fd.Params {
 		t := e.P.parseType(fd.Pkg, p.Type)
 		cs := flatten(t)
-		if len(cs) != 1 {
-			panic(specErr("fun %s: parameter %s must be scalar", fd.Name, p.Name))
+		var syms []string
+		for _, c := range cs {
+			sym := q("p!" + p.Name + c.Suffix)
+			syms = append(syms, sym)
+			pdecl = append(pdecl, fmt.Sprintf("(%s %s)", sym, c.Sort))
 		}
-		sym := q("p!" + p.Name)
-		names[p.Name] = scalar(t, sym)
-		pdecl = append(pdecl, fmt.Sprintf("(%s %s)", sym, cs[0].Sort))
+		pv, _ := fromComps(t, syms)
+		names[p.Name] = pv
 	}
 	ctx := &SpecCtx{e: e, names: names, heap: fh, old: fh, pkg: fd.Pkg, noLemma: true, inFun: fd}
 	body := ctx.eval(fd.Body)
@@ -849,11 +865,11 @@ func (c *SpecCtx) evalFun(fd *FunDef, n *SNode) Val {
 	var ats []string
 	for _, a := range n.Args {
 		v := c.eval(a)
-		if v.K != kScalar {
-			panic(specErr("fun %s: scalar arguments expected", fd.Name))
+		if v.K != kScalar && v.K != kSlice {
+			panic(specErr("fun %s: scalar or slice arguments expected", fd.Name))
 		}
 		args = append(args, v)
-		ats = append(ats, v.S)
+		ats = append(ats, comps(v)...)
 	}
 	if c.inFun == fd && c.curHeap().formal != nil && !c.curHeap().formal.declare {
 		// recursive call inside the definition: same formal arrays
